@@ -246,6 +246,14 @@ func runC12(s *kernel.Sim) {
 		if throttling && st.status != 429 && st.status != 503 {
 			s.Violate("R1", "irrelevant-status-stored", "request %s answered from a stored response with status %d, relevant statuses are 429/503", keyStr(k), st.status)
 		}
+		// the response remedies run on every early response and may edit its headers in
+		// place: what one replay was given afterwards is not part of the next one
+		if _, prev := er.Headers["x-added-to-a-replay"]; prev {
+			s.Violate("R1", "replay-carries-what-the-provider-never-sent", "request %s: the replayed response carries a header that was added to an earlier replay of the same entry", keyStr(k))
+		}
+		if er.Headers != nil {
+			er.Headers["x-added-to-a-replay"] = "1"
+		}
 		if _, late := er.Headers["x-added-later"]; late {
 			s.Violate("R1", "replay-carries-what-the-provider-never-sent", "request %s: the replayed response carries a header that a later remedy added to the transaction's response after it had been stored", keyStr(k))
 		}
